@@ -1,4 +1,5 @@
-From Coq Require Import Extraction ExtrOcamlBasic.
-From Verif Require Import Lib.Sx Model.Names.
-Definition run_main := run_names.
+From Coq Require Import ZArith Extraction ExtrOcamlBasic.
+From Verif Require Import Lib.Sx Model.Names Model.NamesSession.
+Definition run_main (fn : Z) (a : sx) : sx :=
+  if (70 <=? fn)%Z then run_names_session fn a else run_names fn a.
 Extraction "../build/ml/c08.ml" run_main.
